@@ -206,7 +206,7 @@ def replay_file(path):
             return 2
         if kind == "crash":
             sig = crash_signature(out)
-            print(out["err"][-3000:])
+            print(out["err"][-(60000 if os.environ.get("VERIF_TRACE") else 3000):])
         else:
             if os.environ.get("VERIF_TRACE") and out.get("trace"):
                 print("\n".join(out["trace"]))
